@@ -426,8 +426,47 @@ def r6_stream_errors(prog, res, sev):
     res.floor("R6", "ERROR lines printed while reading the data section", n, 12)
 
 
+def r7_every_iteration_accounts(prog, res, sev):
+    """Pass 1 and pass 2 detect input that ends (or derails) inside the DATA section only through the instance step that
+    follows: a failed CreateInstance/ReadInstance is what gets counted.  So in each iteration that has not seen ENDSEC the
+    instance step must be taken whatever the state of the stream: its guards may mention the end-of-section flag, the file type
+    and the editing state — not the stream."""
+    from engines import enclosing_conditions, conjuncts
+    n = 0
+    for name, steps in (("STEPfile::ReadData1", ("CreateInstance", "SkipInstance")), ("STEPfile::ReadData2", ("ReadInstance", "SkipInstance"))):
+        f = prog.one(name)
+        if f is None:
+            res.broke("anchor vanished: %s" % name)
+            continue
+        loops = [x for x in f.walk() if x["k"] == "While"]
+        for c in f.calls():
+            short = (c.get("fn") or "").split("::")[-1]
+            if short not in steps:
+                continue
+            lp = [a for a in f.ancestors(c) if a["k"] == "While"]
+            if not lp:
+                continue
+            n += 1
+            bad = []
+            for cn, br in enclosing_conditions(f, c):
+                if any(cn is a["ch"][0] for a in lp):
+                    continue        # the loop head itself
+                for at, pol in conjuncts(cn, br):
+                    calls = [x for x in walk(at) if x["k"] == "Call" and x.get("member") and
+                             any("stream" in f.ty(y) or "istream" in f.ty(y) for y in walk(x) if y["k"] == "Ref")]
+                    if calls:
+                        bad.append(expr_str(at))
+            ok = not bad
+            res.add("R7.instance_step_not_skipped", "R7|src/cleditor/STEPfile.cc|%s|%s" % (name, short), f.where(c), ok,
+                    "%s is attempted in every iteration that has not reached ENDSEC, whatever the stream state (a failed attempt is what records exhausted input)" % short if ok else
+                    "%s is skipped when %s: input that ends inside the DATA section (e.g. a last instance without ';') is then not recorded by anything" %
+                    (short, " / ".join(bad)))
+    res.floor("R7", "instance steps in the two data passes", n, 4)
+
+
 def run(prog, res, sev):
     r6_stream_errors(prog, res, sev)
+    r7_every_iteration_accounts(prog, res, sev)
     r3_merges(prog, res, sev)
     r4_exit_gate(prog, res, sev)
     r5_dropped(prog, res, sev)
